@@ -135,7 +135,11 @@ func (sv *Served) Shutdown(d time.Duration) bool {
 // Blocked returns the stacks of goroutines that are parked in a channel, select
 // or mutex operation with a mellium.im/xmpp (non-harness) frame on the stack —
 // the only basis on which a stall is ever reported (DESIGN §0.7).
-func Blocked() []string {
+func Blocked() []string { return BlockedMatching("") }
+
+// BlockedMatching is Blocked restricted to goroutines whose stack contains
+// the given substring (e.g. "handleInputStream" for the serve loop).
+func BlockedMatching(substr string) []string {
 	buf := make([]byte, 1<<20)
 	n := runtime.Stack(buf, true)
 	var out []string
@@ -156,7 +160,7 @@ func Blocked() []string {
 				break
 			}
 		}
-		if lib {
+		if lib && (substr == "" || strings.Contains(g, substr)) {
 			out = append(out, g)
 		}
 	}
